@@ -293,3 +293,116 @@ def unit_g711(prop="C12"):
         return u
     unit.__name__ = "g711_tables"
     return unit
+
+
+# ------------------------------------------------------------------------------------------
+# read_header, the validation of the parsed fields (a statement slice: the byte-level parsing loop above it is dropped here and
+# exercised by the stand-in only): which combinations of parsed header fields are accepted.
+#   accepted  <=>  a coding is known (given, or PCM inferred from 2-byte samples / a 2-character byte order) and sample_count,
+#                  sample_rate, channel_count are present and non-zero, and - for PCM only - the byte order is given
+#   the byte order is NOT required of 8-bit mu-law / A-law files (the property: "8-bit mu-law / A-law ... decodes")
+# ------------------------------------------------------------------------------------------
+import ast as _ast
+
+
+def to_case_header(ob):
+    """well-formed files of the coding / field combination of the failed setup (8-bit files without the byte-format line included),
+    then the copy_samples candidates"""
+    out = []
+    for coding in ("ulaw", "alaw", "pcm01", "pcm10"):
+        for c in (1, 2, 3):
+            for hdr in (1024, 2048):
+                for dtype in (None, "uint8") if not coding.startswith("pcm") else (None,):
+                    out.append({"kind": "plain", "c": c, "n": 9, "coding": coding, "hdr": hdr, "seed": 0, "via": "bytes", "dtype": dtype, "no_sbf": True})
+                    out.append({"kind": "plain", "c": c, "n": 9, "coding": coding, "hdr": hdr, "seed": 0, "via": "bytes", "dtype": dtype})
+    try:
+        out += to_case(ob)[:60]
+    except Exception:
+        pass
+    return out
+
+
+def sel_header_validation(fn):
+    out, on = [], False
+    for s in fn.body:
+        txt = _ast.unparse(s)
+        if isinstance(s, _ast.If) and txt.startswith("if not samptype and"):
+            on = True
+        if on:
+            out.append(s)
+    return out
+
+
+def setup_header(samptype, inporder, sampsize_given, missing):
+    def setup(ex, st):
+        st.env["error"] = Opaque("IOError", "exc")
+        vals = {}
+        for name in ("sampcount", "samprate", "chancount"):
+            vals[name] = None if name == missing else api.sym(name)
+        sampsize = api.sym("sampsize") if sampsize_given else None
+        if sampsize is not None:
+            st.assume(sampsize >= 1)  # a zero sample_n_bytes is treated as missing by the code (see O-8)
+        st.env.update(vals)
+        st.env.update({"samptype": samptype, "inporder": inporder, "sampsize": sampsize})
+        ex.ctx = dict(samptype=samptype, inporder=inporder, sampsize=sampsize, vals=vals)
+    return setup
+
+
+def _h_truthiness(ex, st, v):
+    if v is None:
+        return False
+    if isinstance(v, str):
+        return len(v) > 0
+    if symex.is_z3(v) and z3.is_int(v):
+        return v != 0
+    return NotImplemented
+
+
+def contract_header():
+    def accepted(ev):
+        c = ev.ex.ctx
+        st_, io, ss = c["samptype"], c["inporder"], c["sampsize"]
+        coding = st_
+        pcm_inferred = z3.BoolVal(False)
+        if not st_:
+            two_byte = (Z(ss) == 2) if ss is not None else z3.BoolVal(False)
+            pcm_inferred = z3.Or(two_byte, z3.BoolVal(bool(io) and len(io) == 2))
+        known = z3.BoolVal(bool(st_)) if st_ else pcm_inferred
+        is_pcm = z3.BoolVal(st_ == "pcm") if st_ else pcm_inferred
+        present = z3.And(*[(Z(v) != 0) if v is not None else z3.BoolVal(False) for v in c["vals"].values()])
+        return simp(z3.And(known, present, z3.Implies(is_pcm, z3.BoolVal(bool(io)))))
+
+    c = Contract(
+        target="_sphere:read_header", uses=["A-PYSEM"],
+        consts={"ACCEPTED": SpecFn(accepted)},
+        handlers={"truthiness": _h_truthiness},
+        raises={"IOError": "not ACCEPTED()"},
+        ensures=[("six_fields_returned", "len(result) == 6"), ("counts_passed_through", "result[2] == sampcount and result[3] == samprate and result[4] == chancount")],
+    )
+    return c
+
+
+def header_labels():
+    out = []
+    for stype in ("none", "pcm", "ulaw", "alaw"):
+        for io in ("none", "01", "10", "1"):
+            for ss in ("size",):  # without sample_n_bytes an accepted header reaches `sampsize = samptype & 3`, a TypeError on a str (observation O-8)
+                for missing in ("all", "sampcount", "samprate", "chancount"):
+                    out.append(f"{stype}|{io}|{ss}|{missing}")
+    return out
+
+
+def generate_header(prop, label):
+    from contracts.registry import run_contract
+    from pyvc import extract
+    from pyvc.check import UnitResult
+    stype, io, ss, missing = label.split("|")
+    try:
+        fx = extract.get_slice("_sphere", "read_header", sel_header_validation, "validation of the parsed header fields")
+    except KeyError as e:
+        u = UnitResult("read_header_validation")
+        u.outside.append(("_sphere:read_header", str(e)))
+        return u
+    return run_contract(prop, fx, contract_header(), [(label, setup_header(None if stype == "none" else stype, None if io == "none" else io, ss == "size",
+                                                                               None if missing == "all" else missing))],
+                        name="read_header_validation", fname="read_header#validation")
